@@ -1,1 +1,6 @@
 import Anytree.Model.Tree
+import Anytree.Model.Iter
+import Anytree.Model.Generated
+import Anytree.Spec.Iter
+import Anytree.Props.C05
+import Anytree.Props.C06
